@@ -49,6 +49,10 @@ def configs(tier, seed):
     for kind in ("B", "K2", "K3") + (("RB", "RK2", "DB") if tier != "quick" else ()):
         out.append({"name": "multi-%s-d2-splits" % kind, "mode": "multi", "kind": kind, "d": 2, "m": (3 if kind == "DB" else 5 if tier == "quick" else 6), "splits_only": True,
                     "end_leaves": True, "cost": 4000})
+    # a box whose bounds are Python ints (the way most users write a domain): same assertions, concrete bounds
+    for kind in ("B", "RB", "DB", "K3", "RK3"):
+        for d in (1, 2):
+            out.append({"name": "multi-%s-d%d-intbox" % (kind, d), "mode": "multi", "kind": kind, "d": d, "m": 2, "intbox": True, "cost": 30})
     out.append({"name": "twin-B", "kind": "B", "d": 1, "level": 0, "which": 0, "twin": True, "expect_fail": "twin"})
     out.append({"name": "twin-RK3", "kind": "RK3", "d": 2, "level": 0, "which": 0, "twin": True, "expect_fail": "twin"})
     return out
@@ -159,7 +163,7 @@ def run_multi(ctx, cfg):
     must still tile it and the leaves reached through the child links must tile the domain"""
     from harness.common import leaves
     kind, d, m = cfg["kind"], cfg["d"], cfg["m"]
-    dom = sym_box(ctx, d)
+    dom = [[-3, 5], [2, 7], [0, 1]][:d] if cfg.get("intbox") else sym_box(ctx, d)
     part = ctx.call("partition_init", partition_class(kind), domain=dom)
     trace = []
     for step in range(m):
@@ -237,7 +241,7 @@ def lemma_specs(tier):
 
 def run_lemma(spec):
     from sx import shims
-    shims.load_pyxab()
+    shims.install_conversions(shims.load_pyxab())
     return c02_fp.run_lemma(spec)
 
 
